@@ -207,7 +207,7 @@ func (m *Machine) Step(op Op) error {
 		}
 	case OpDelWrong:
 		ki, ok := PresentKey(t.Model, op.K)
-		if !ok {
+		if !ok || w.Cfg.Val == VNil { // with nil-only values there is no non-matching value
 			return ErrSkipped
 		}
 		vn := op.V
